@@ -33,7 +33,29 @@ func (e *Engine) store(p Ptr, v Value) {
 		e.storeSym(p, v)
 		return
 	}
+	// an aggregate (struct, array) assigned over an existing one is copied into the same cells, as
+	// in Go: pointers to its fields or elements taken before the assignment (the compiler computes
+	// &b.f before *b = T{} in composite-literal assignments) stay valid
+	if nb, ok := v.(*Backing); ok && nb != nil {
+		if old, ok2 := p.B.E[p.I].(*Backing); ok2 && old != nil && len(old.E) == len(nb.E) {
+			assignInPlace(old, copyVal(nb).(*Backing))
+			return
+		}
+	}
 	p.B.E[p.I] = copyVal(v)
+}
+
+func assignInPlace(dst, src *Backing) {
+	dst.Tag = src.Tag
+	for i, x := range src.E {
+		if sb, ok := x.(*Backing); ok && sb != nil {
+			if db, ok2 := dst.E[i].(*Backing); ok2 && db != nil && len(db.E) == len(sb.E) {
+				assignInPlace(db, sb)
+				continue
+			}
+		}
+		dst.E[i] = x
+	}
 }
 
 func (e *Engine) loadSym(p Ptr) Value {
